@@ -151,7 +151,7 @@ var poolCalls = []poolCall{
 		return string(sb.RedactableString())
 	}},
 	{"probe-default", func() string { return string(redact.Sprintf("%v|%v|%d", widthProbe{}, theErr, 3)) }},
-	{"negprec", func() string { return string(redact.Sprintf("%.*d|%-*d|%*.*f", -1000, 5, -7, 6, -3, -2, 1.5)) }},
+	{"negprec", func() string { return string(redact.Sprintf("%*.*f|%-*d|%.*d", -3, -2, 1.5, -7, 6, -1000, 5)) }},
 	{"wide", func() string { return digest(string(redact.Sprintf("%0120d|%0100x|%+090d|%.100d", 7, -3, -5, 9))) }},
 	{"scribble", func() string {
 		// a caller may do what it likes with the slices the API hands out
@@ -322,6 +322,19 @@ func poolHistory(args []string) {
 		}
 	}
 	gen(nil, *depth)
+	// every (prior call, probe) pair with nothing in between: a probe must not be shielded by the probes
+	// that happen to run before it
+	for _, a := range poolCalls {
+		for _, b := range poolCalls {
+			guardCall(a.fn)
+			got := guardCall(b.fn)
+			rep.AddEval(1)
+			if got != expected[b.name] {
+				rep.Violate("pool:history:"+b.name, fmt.Sprintf("right after %s the call %s returns %q, a fresh process %q", a.name, b.name, digest(got), digest(expected[b.name])),
+					poolCase{"pool-history", []string{a.name}, b.name})
+			}
+		}
+	}
 	for i, h := range hists {
 		runHistory(rep, expected, h)
 		rep.Nontrivial(strings.Join(h, ","))
